@@ -317,6 +317,13 @@ def analyze(run: Any) -> dict[str, list[str]]:  # noqa: C901
                         if st != want or (exc is not None and exc != fin):
                             V["C01"].append(f"handle of task {u}: status {st}/{exc}, coroutine ended with {fin}")
             g["native_in_aexit"] = natives[T] > g.get("natives_at_aexit", natives[T])
+        elif kind == "handle":
+            hk, L = a
+            d = m.sc.get(L)
+            if hk == "timeout" and d is not None and d["entered"] and not d["active"]:
+                msg = f"deadline timer of scope {L} fired after the scope had been left"
+                V["C05"].append(msg)
+                V["C06"].append(msg)
         elif kind == "effdl":
             T, txt = a
             ref = m.eff_deadline(T)
